@@ -117,6 +117,9 @@ func loadBases(repo string, thorough bool) []baseDoc {
 	if d, err := docmodel.Parse([]byte(grammar.RefsSpec)); err == nil {
 		out = append(out, baseDoc{Name: "every component kind reached through references (internal/grammar)", Doc: d})
 	}
+	if d, err := docmodel.Parse([]byte(grammar.DiamondDefaults(40))); err == nil {
+		out = append(out, baseDoc{Name: "equal default responses over two diamond chains of 40 components (internal/grammar)", Doc: d})
+	}
 	if d, err := docmodel.Parse([]byte(grammar.PathItemsSpec)); err == nil {
 		out = append(out, baseDoc{Name: "parameters of path items shared by paths and webhooks (internal/grammar)", Doc: d})
 	}
